@@ -25,7 +25,9 @@ THEOREMS = ['C03.check_eq_spec', 'C03.anti_symm', 'C03.owner_all', 'C03.case_ins
             # obligations on the extracted tables (decide against what /repo says now)
             'C03.rfc1459_table_ok', 'C03.chanTypes_no_dash', 'C03.chanTypes_no_o', 'C03.channel_default_ok',
             'C03.channel_default_strong', 'C03.default_caps_valid', 'C03.isCapability_eq_splitWs',
-            'C03.chanKeyP_case_insens', 'C03.asciiLower_ok']
+            'C03.chanKeyP_case_insens', 'C03.asciiLower_ok',
+            # channels.conf written and read back
+            'C03.add_keeps_decided', 'C03.reload_decides_defaultOff', 'C03.reload_default']
 TRUSTED = ['Lean 4.33.0 kernel; axioms ⊆ {propext, Classical.choice, Quot.sound}',
            'harness/extractors/ircdb_caps.py (rfc1459 table, chantypes/channellen, defaultOff, shipped default capabilities → Gen/IrcDbCaps.lean)',
            'harness/c03.py generators, canonicalisation and the independent decision-list oracle; hex line protocol',
@@ -33,7 +35,7 @@ TRUSTED = ['Lean 4.33.0 kernel; axioms ⊆ {propext, Classical.choice, Quot.soun
            'str.lower() and re.I agree with the ASCII model on generated channel/user names']
 RULE = ('scenario = `initial`, 0–6 users (capabilities from a vocabulary of plain/anti/channel/case variants/owner/op, ignore and secure '
         'flags, hostmask patterns, logins with times around the timeout), 0–3 channels, default/registered sets, default flag; then '
-        'capability edits interleaved with queries; every query is asked for the capability, its inverse, a case variant and again '
+        'capability edits and write/read-back of the channel database (ChannelsDictionary.flush + reload, followed by queries for #chan,op/halfop/voice/protected) interleaved with queries; every query is asked for the capability, its inverse, a case variant and again '
         'with cold caches, under one of the 8 flag combinations. A scenario is non-trivial when at least one decision left the '
         'global-default branch; distinct = distinct operation list. Streams: wf (all strings inside the theorems\' domain, all '
         'oracles on), hostile (arbitrary strings, correspondence + totality only), algebra (string functions), lower-contract and '
@@ -272,6 +274,17 @@ class Impl(object):
                 self.U.users[op[1]].hostmasks.add(op[2]); self.U._hostmaskCache.clear(); return 'ok', []
             if k == 'uauth':
                 self.U.users[op[1]].auth.append((float(op[2]), op[3])); self.U._hostmaskCache.clear(); return 'ok', []
+            if k == 'creload':
+                # channels.conf written and read back (ChannelsDictionary.flush, .reload)
+                import tempfile
+                fd, path = tempfile.mkstemp(prefix='c03channels', suffix='.conf'); os.close(fd)
+                try:
+                    self.C.filename = path; self.C.flush(); self.C.reload()
+                finally:
+                    self.C.filename = None
+                    try: os.unlink(path)
+                    except OSError: pass
+                return 'ok', []
             if k == 'ccap_add':
                 self.C.getChannel(op[1]).addCapability(op[2]); return 'ok', []
             if k == 'ccap_rm':
@@ -298,6 +311,15 @@ class Impl(object):
                 d = ircdb.checkCapability.__defaults__
                 ircdb.checkCapability.__defaults__ = (self.U, self.C) + d[2:]
                 before = self.hosts_snapshot()
+                # observe (not alter) the checkCapability calls it makes: a lookup that finds two accounts deletes
+                # hostmasks, and the remaining capabilities are then checked against the changed records
+                self.inner = []; self.inner_before = before
+                orig_cc = ircdb.checkCapability
+                def watched_cc(*a, **kw):
+                    r_ = orig_cc(*a, **kw)
+                    self.inner.append((r_, self.hosts_snapshot()))
+                    return r_
+                ircdb.checkCapability = watched_cc
                 try:
                     try:
                         r = ircdb.checkCapabilities(op[1], list(op[2]), requireAll=bool(op[3]))
@@ -305,6 +327,7 @@ class Impl(object):
                     except Exception as e:
                         out = self.err(e)
                 finally:
+                    ircdb.checkCapability = orig_cc
                     ircdb.checkCapability.__defaults__ = d
                 after = self.hosts_snapshot()
                 return out, [('uhosts', i, after[i]) for i in after if after[i] != before.get(i)]
@@ -320,7 +343,7 @@ def fl_str(fl):
 def wire_line(op):
     k = op[0]
     E = wire.enc
-    if k in ('initial', 'dump'): return k
+    if k in ('initial', 'dump', 'creload'): return k
     if k in ('defaults', 'registered'): return '%s\t%s' % (k, wire.enc_list(op[1]))
     if k == 'flag': return 'flag\t%d' % op[1]
     if k in ('timeout', 'now'): return '%s\t%d' % (k, op[1])
@@ -423,10 +446,21 @@ def gen_scenario(r, wf=True):
             i = r.randint(1, nusers)
             ops.append((r.choice(['ucap_add', 'ucap_add', 'ucap_rm']), i, gen_cap(r, wf)))
         elif x < 0.18:
-            ops.append((r.choice(['ccap_add', 'ccap_rm']), r.choice(CHANS), gen_cap_plain(r, wf)))
-        elif x < 0.21 and nusers:
+            ops.append((r.choice(['ccap_add', 'ccap_rm']), r.choice(CHANS), gen_cap_plain(r, wf) if r.random() < 0.8 else
+                        r.choice(['op', '-op', 'halfop', '-voice', 'protected', '-protected'])))
+        elif x < 0.22 and wf:
+            # the channel database is written and read back; then somebody asks for what a fresh channel switches off
+            ops.append(('creload',))
+            for _ in range(2):
+                base_idx = len(ops)
+                cap = r.choice(CHANS) + ',' + r.choice(['op', 'halfop', 'voice', 'protected', '-op', '-voice'])
+                fl = (False, False, r.random() < 0.3)
+                h = r.choice(HOSTS)
+                ops.append(('check', h, cap, fl))
+                ops.append(('check', h, o_invert(cap), fl, ('inv', base_idx)))
+        elif x < 0.25 and nusers:
             ops.append(('uflags', r.randint(1, nusers), r.randint(0, 1), r.randint(0, 1)))
-        elif x < 0.24:
+        elif x < 0.28:
             ops.append(('checks', r.choice(HOSTS), [gen_cap(r, wf) for _ in range(r.randint(0, 3))], r.randint(0, 1)))
         else:
             h = r.choice(HOSTS)
@@ -467,10 +501,37 @@ def run_scenario(impl, ops, wf, kind):
     decisions = 0; epoch = 0
     for idx, op in enumerate(ops):
         out, sync = impl.run(op)
-        outs.append(out)
-        trace.append('%3d %-90s -> %s%s' % (idx, repr(op)[:90], out.replace('\t', ' '), ''.join('   [effect: user %d hostmasks now %r]' % (s_[1], s_[2]) for s_ in sync)))
-        lines.append(wire_line(op))
         k = op[0]
+        trace.append('%3d %-90s -> %s%s' % (idx, repr(op)[:90], out.replace('\t', ' '), ''.join('   [effect: user %d hostmasks now %r]' % (s_[1], s_[2]) for s_ in sync)))
+        if k == 'checks' and sync and len(op[2]) > 1 and out.startswith('ok') and all(isinstance(r_, bool) for (r_, _) in impl.inner):
+            # hostmasks were deleted in the middle of checkCapabilities: the model (effect-free) is asked segment by
+            # segment — the calls up to and including the one with the effect, the resynchronisation, the rest —
+            # with the implementation's own inner answers combined per segment
+            ra = bool(op[3]); comb = (all if ra else any)
+            seen = impl.inner; prev = impl.inner_before; seg = []; segs = []
+            for n_, (r_, snap) in enumerate(seen):
+                seg.append(n_)
+                if snap != prev:
+                    segs.append((seg, {i_: snap[i_] for i_ in snap if snap[i_] != prev.get(i_)})); seg = []
+                prev = snap
+            if seg: segs.append((seg, None))
+            whole = None
+            for (ix, snap) in segs:
+                r_seg = comb(seen[n_][0] for n_ in ix)
+                lines.append(wire_line(('checks', op[1], [op[2][n_] for n_ in ix], op[3]))); outs.append('ok\t%d' % r_seg)
+                whole = r_seg if whole is None else ((whole and r_seg) if ra else (whole or r_seg))
+                if snap is not None:
+                    for i_ in snap:
+                        lines.append(wire_line(('uhosts', i_, snap[i_]))); outs.append('ok')
+            if out != 'ok\t%d' % whole:
+                fail('op %d: checkCapabilities answered %s, its own checkCapability calls combine to %s' % (idx, out, whole))
+            tags.add('dup-removal'); tags.add('effect-inside-checkCapabilities')
+            epoch += 1
+            if st is not None:
+                for s_ in sync: st.users[s_[1]].masks = list(s_[2])
+            continue
+        outs.append(out)
+        lines.append(wire_line(op))
         if sync or k not in ('check', 'coldcheck', 'checks', 'dump'):
             epoch += 1                 # the database changed: answers before and after are not comparable
         if k in ('check', 'coldcheck'):
@@ -560,6 +621,12 @@ def o_apply(st, op, out):
         c = st.chan_mut(op[1])
         if good: c.caps.remove(op[2])
     elif k == 'cdefault': st.chan_mut(op[1]).allow = bool(op[2])
+    elif k == 'creload':
+        # read back: a fresh channel (op, halfop, voice, protected off) overlaid with what the file says
+        for c in st.chans.values():
+            stored = dict(c.caps)
+            c.caps = OSet({'op': False, 'halfop': False, 'voice': False, 'protected': False})
+            c.caps.update(stored)
 
 # ---- algebra stream -----------------------------------------------------------------
 ALG_ALPHA = ['#', '&', '!', ',', '-', ' ', '\t', '\x07', 'a', 'B', 'op', 'owner', '[', ']', '\\', '~', '{', '}', '|', '^', 'é', 'c' * 24, '\n', '\xa0', '　']
